@@ -20,7 +20,9 @@ structure Done (jo : JobObj) (s : Sys) : Prop where
   complete : AnySucc jo.job.status.tasks ∨ (jo.job.status.tasks.length : Int) ≥ jo.job.maxAttempts
   podsFin : ∀ p ∈ s.pods, p.pod.isFinished = true
   recorded : ∀ p ∈ s.pods, p.pod.name ∈ refNames jo.job
-  stable : ∀ c, recompute c s.d jo.job (foundTasks s jo) = jo.job
+  /-- whatever the clock `c` of a further pass (it reads the pods at ITS clock: a pod that does not tell
+  when it finished is read with finish time `c`, and the first recorded finish time is kept) -/
+  stable : ∀ c, recompute c s.d jo.job (foundTasks ({ s with clock := c } : Sys) jo) = jo.job
 
 section
 variable {ok : Sys → Action → Prop} {j0 jo : JobObj} {F0 : Int} {s : Sys}
